@@ -6,6 +6,7 @@ package explore
 
 import (
 	"fmt"
+	"os"
 	"sort"
 	"strings"
 	"time"
@@ -82,7 +83,8 @@ func (r *replayStrat) PickSched(view []vsched.GView, enabled []string, lastClock
 	}
 	return r.next(len(enabled), "sched"), false
 }
-func (r *replayStrat) PickData(n int, kind string) int { return r.next(n, kind) }
+func (r *replayStrat) PickData(n int, kind string) int          { return r.next(n, kind) }
+func (r *replayStrat) Final(view []vsched.GView, lastClock int) {}
 
 // RunOnce executes body once, following the given choice sequence and answering 0 afterwards.
 func RunOnce(body func() string, prefix []int) *Exec {
@@ -186,6 +188,8 @@ type Options struct {
 	DataBudget int           // dpor mode: max non-default environment answers per execution (-1 = unlimited)
 	SchedOnly  bool          // bounded mode: deviations only at scheduling points
 	DataOnly   bool          // bounded mode: deviations only at environment choice points
+	Debug      bool          // dpor mode: print every execution's transition sequence and the backtrack sets
+	FullRace   bool          // dpor mode: textbook race detection (every pending operation against the whole history at every state)
 }
 
 func deviations(ch []int) int {
@@ -402,82 +406,7 @@ func (d *dporStrat) PickSched(view []vsched.GView, enabled []string, lastClock i
 			}
 		}
 	}
-	// race detection / backtrack point insertion, incremental: at a state reached by executing transition
-	// t of goroutine g, (a) g's new pending operation is compared with the whole history on its object, and
-	// (c) every other goroutine's (unchanged) pending operation is compared with t only — older
-	// transitions were compared with it when they were executed.
-	vcOf := map[string]vsched.VC{}
-	for _, g := range view {
-		vcOf[g.ID] = g.VC
-	}
-	race := func(p string, op opinfo, cands []int) {
-		gvc := vcOf[p]
-		for ci := len(cands) - 1; ci >= 0; ci-- {
-			i := cands[ci]
-			if i >= d.depth {
-				continue
-			}
-			t := d.stack[i]
-			if t.data || t.chosen == p || !dependent(t.op, op) {
-				continue
-			}
-			if t.clock <= gvc[t.chosen] {
-				continue // happens-before p's next transition
-			}
-			// co-enabledness: p could not run at pre(i) -> nothing to reverse here
-			pThere := false
-			for _, x := range t.enabled {
-				if x == p {
-					pThere = true
-					break
-				}
-			}
-			if !pThere {
-				continue
-			}
-			var E []string
-			for _, x := range t.enabled {
-				if x == p {
-					E = append(E, x)
-					continue
-				}
-				for j := i + 1; j < d.depth; j++ {
-					tj := d.stack[j]
-					if !tj.data && tj.chosen == x && tj.clock <= gvc[x] {
-						E = append(E, x)
-						break
-					}
-				}
-			}
-			if len(E) > 0 {
-				pick := E[0]
-				for _, x := range E {
-					if x == p {
-						pick = p
-					}
-				}
-				t.backtrack[pick] = true
-			} else {
-				for _, x := range t.enabled {
-					t.backtrack[x] = true
-				}
-			}
-			return
-		}
-	}
-	if d.lastSched >= 0 {
-		t := d.stack[d.lastSched]
-		if op, ok := pending[t.chosen]; ok && op.obj != nil {
-			race(t.chosen, op, d.byObj[op.obj]) // (a)
-		}
-		if t.op.obj != nil {
-			for _, g := range view { // (c)
-				if g.ID != t.chosen && g.Obj == t.op.obj {
-					race(g.ID, pending[g.ID], []int{d.lastSched})
-				}
-			}
-		}
-	}
+	d.detectRaces(view, pending)
 	var cands []string
 	for _, x := range enabled {
 		if !nd.sleep[x] {
@@ -502,6 +431,139 @@ func (d *dporStrat) PickSched(view []vsched.GView, enabled []string, lastClock i
 	k := idxOf(pick)
 	record(k)
 	return k, false
+}
+
+// Final: race detection for the operations still pending when the execution ends (blocked goroutines).
+func (d *dporStrat) Final(view []vsched.GView, lastClock int) {
+	if d.lastSched >= 0 && d.lastSched < len(d.stack) {
+		d.stack[d.lastSched].clock = lastClock
+	}
+	if d.depth < len(d.stack) {
+		return // replaying a prefix that ends early: cannot happen (diverging replay is caught elsewhere)
+	}
+	pending := make(map[string]opinfo, len(view))
+	for _, g := range view {
+		pending[g.ID] = opinfo{g.Kind, g.Obj}
+	}
+	d.detectRaces(view, pending)
+}
+
+func (d *dporStrat) detectRaces(view []vsched.GView, pending map[string]opinfo) {
+	// race detection / backtrack point insertion, incremental: at a state reached by executing transition
+	// t of goroutine g, (a) g's new pending operation is compared with the whole history on its object, and
+	// (c) every other goroutine's (unchanged) pending operation is compared with t only — older
+	// transitions were compared with it when they were executed.
+	vcOf := map[string]vsched.VC{}
+	objVCOf := map[string]vsched.VC{}
+	for _, g := range view {
+		vcOf[g.ID] = g.VC
+		objVCOf[g.ID] = g.ObjVC
+	}
+	race := func(p string, op opinfo, cands []int) {
+		gvc, ovc := vcOf[p], objVCOf[p]
+		// i -> p in the sense of the algorithm: transition i happens-before some transition p has already
+		// executed, i.e. p's current clock covers it
+		_ = ovc
+		next := func(x string) int { return gvc[x] }
+		for ci := len(cands) - 1; ci >= 0; ci-- {
+			i := cands[ci]
+			if i >= d.depth {
+				continue
+			}
+			t := d.stack[i]
+			if t.data || t.chosen == p || !dependent(t.op, op) {
+				continue
+			}
+			if t.clock <= next(t.chosen) {
+				continue // happens-before p's next transition
+			}
+			// co-enabledness: if p was disabled before i and has not moved since, its pending operation was
+			// enabled by i or by something after it: there is nothing to reverse with i (an earlier candidate
+			// may still qualify). If p has moved since pre(i), its pending operation is a different one and
+			// the classical rule below applies (p itself is then not among the candidates).
+			pThere := false
+			for _, x := range t.enabled {
+				if x == p {
+					pThere = true
+					break
+				}
+			}
+			if !pThere {
+				moved := false
+				for j := i + 1; j < d.depth; j++ {
+					if tj := d.stack[j]; !tj.data && tj.chosen == p {
+						moved = true
+						break
+					}
+				}
+				if !moved {
+					continue
+				}
+			}
+			// latest dependent transition that may be reversed with p's next one: the candidates are the
+			// goroutines enabled before it that are p itself or have a later transition happening before p's next
+			// candidates: p itself, or a goroutine enabled before i with a later transition that happens before
+			// p's NEXT transition — either before something p has already executed (clock), or directly
+			// dependent with p's pending operation. Candidates asleep at pre(i) cannot be used (a sleeping
+			// process is never taken from that node, and the exploration that put it to sleep did not see this
+			// race in this context): if none is left, every enabled goroutine is added (the conservative
+			// fallback of the algorithm).
+			var E []string
+			for _, x := range t.enabled {
+				if t.sleep[x] {
+					continue
+				}
+				if x == p {
+					E = append(E, x)
+					continue
+				}
+				for j := i + 1; j < d.depth; j++ {
+					tj := d.stack[j]
+					if !tj.data && tj.chosen == x && (tj.clock <= next(x) || dependent(tj.op, op)) {
+						E = append(E, x)
+						break
+					}
+				}
+			}
+			if len(E) > 0 {
+				pick := E[0]
+				for _, x := range E {
+					if x == p {
+						pick = p
+					}
+				}
+				t.backtrack[pick] = true
+			} else {
+				for _, x := range t.enabled {
+					t.backtrack[x] = true
+				}
+			}
+			return
+		}
+	}
+	if d.opt.FullRace {
+		all := make([]int, d.depth)
+		for i := range all {
+			all[i] = i
+		}
+		for _, g := range view {
+			if op := pending[g.ID]; op.obj != nil {
+				race(g.ID, op, all)
+			}
+		}
+	} else if d.lastSched >= 0 {
+		t := d.stack[d.lastSched]
+		if op, ok := pending[t.chosen]; ok && op.obj != nil {
+			race(t.chosen, op, d.byObj[op.obj]) // (a)
+		}
+		if t.op.obj != nil {
+			for _, g := range view { // (c)
+				if g.ID != t.chosen && g.Obj == t.op.obj {
+					race(g.ID, pending[g.ID], []int{d.lastSched})
+				}
+			}
+		}
+	}
 }
 
 // DPOR explores, without bound on scheduling, at least one execution of every Mazurkiewicz trace of body
@@ -535,6 +597,27 @@ func DPOR(body func() string, opt Options) *Stats {
 		}
 		st.add(x)
 		st.NewStates += int64(len(d.stack)-before) + 1
+		if opt.Debug {
+			line := ""
+			for _, nd := range d.stack {
+				if nd.data {
+					line += fmt.Sprintf(" [data %d/%d]", nd.alt, nd.n)
+					continue
+				}
+				bt := []string{}
+				for k := range nd.backtrack {
+					bt = append(bt, k)
+				}
+				sort.Strings(bt)
+				sl := []string{}
+				for k := range nd.sleep {
+					sl = append(sl, k)
+				}
+				sort.Strings(sl)
+				line += fmt.Sprintf(" %s:%s(bt%v sl%v)", nd.chosen, vsched.OpNames[nd.op.kind], bt, sl)
+			}
+			fmt.Fprintf(os.Stderr, "EXEC %d cut=%v outcome=%q\n   %s\n", st.Execs, x.Cut, x.Outcome(), line)
+		}
 		// backtrack
 		found := false
 		for i := len(d.stack) - 1; i >= 0 && !found; i-- {
